@@ -220,7 +220,8 @@ func K7() *Entry {
 		F("Sub", MsgT("Payload"), In(1)), F("Other", MsgT("Payload2"), In(1)), F("Nothing", MsgT("Void"), In(1)), F("Word", In(1)),
 		F("at_time", TS(), In(2)), F("for_span", Dur(), In(2)), F("plain_text", In(2)),
 	)
-	WithOneofs(choice, "Basic", "Shape", "lower_snake_pick")
+	// (an acronym in a oneof name is harmless: no attribute name derives from it)
+	WithOneofs(choice, "Basic", "ShapeID", "lower_snake_pick")
 	outer := M("Outer", F("Name"), F("Direct", MsgT("Choice"), NonNull()), F("Maybe", MsgT("Choice")), F("Many", MsgT("Choice"), Rep()),
 		F("Dict", MsgT("Choice"), MapOf()), F("Left", In(0)), F("Right", Sc(ir.Int32), In(0)))
 	WithOneofs(outer, "Side")
